@@ -114,6 +114,47 @@ def reader_layout(ctx: Ctx, fn: Func) -> None:
                         out.append(f"bind:{t.id}")
         return out
 
+    # what is handed over belongs to THIS frame: on every path from the loop head to a delivery the type and the payload
+    # have been (re)bound in the current iteration (a value initialised once in front of the loop would be the previous
+    # frame's when a branch skips the assignment)
+    loops_ = [x for x in own_nodes(fn.node) if isinstance(x, ast.While)]
+    heads_ = [n for n in g.reachable() if n.kind == "join" and loops_ and n.ast is loops_[0]]
+    if heads_:
+        from ..flow import disjunctive
+
+        watch = {t_arg.id} | {c.args[1].id for c in deliver if isinstance(c.args[1], ast.Name)}
+
+        def step_i(n: Node, st: frozenset, label: str):
+            if label == "exc":
+                return None
+            if n is heads_[0]:
+                st = frozenset()
+            a = n.ast
+            if a is not None:
+                for x in walk_own(a):
+                    tg = []
+                    if isinstance(x, ast.Assign):
+                        tg = x.targets
+                    elif isinstance(x, (ast.AnnAssign, ast.AugAssign)) and getattr(x, "value", None) is not None:
+                        tg = [x.target]
+                    elif isinstance(x, ast.NamedExpr):
+                        tg = [x.target]
+                    for t in tg:
+                        if isinstance(t, ast.Name) and t.id in watch:
+                            st = st | {t.id}
+            return st
+
+        fi = disjunctive(g, frozenset(), step_i)
+        stale = []
+        for n in g.reachable():
+            for c in node_calls(n):
+                if c in deliver:
+                    needed = {a.id for a in c.args if isinstance(a, ast.Name)} & watch
+                    for st in fi.get(n, frozenset()):
+                        # a walrus inside a short-circuit (`A and (x := ...)`) is not executed when A is false
+                        if not needed <= st:
+                            stale.append(sorted(needed - st))
+        ctx.ob("C01.R1", fn, "the type and payload handed over were bound in the same loop iteration", not stale, f"not rebound on some path of the iteration: {stale[:2]}: the previous frame's value would be delivered again")
     ob_ = occurred_before(g, binds)
     bind_nodes = {tok: [n for n in g.reachable() if tok in binds(n)] for tok in (f"bind:{l_name}", f"bind:{t_arg.id}")}
     others = sorted({b for n in g.reachable() for b in binds(n)} - {f"bind:{l_name}", f"bind:{t_arg.id}"})
@@ -344,6 +385,18 @@ def r1(ctx: Ctx, fn: Func, rule: str, deliver_direct: bool, deliver_funcs: set[s
             goes_on = any((need & set(loop_events(ctx, fn, n, deliver_funcs))) for n in reach_v if n is not rn and n.ast is not None and n.kind in ("stmt", "cond"))
             if not goes_on:
                 stuck.append(val if not isinstance(val, bytes) else f"{len(val)} byte(s)")
+        if not first_read and sentinel == -1:
+            # a comparison of a later read's value with something the checker cannot fold (a configurable limit, an
+            # attribute) is a value-dependent decision that is not decided by the samples: rejected
+            opaque = []
+            for n in g.reachable():
+                t = n.ast
+                if n.kind == "cond" and isinstance(t, ast.Compare) and len(t.ops) == 1 and any(isinstance(o, ast.Name) and o.id == var for o in (t.left, t.comparators[0])):
+                    other = t.comparators[0] if (isinstance(t.left, ast.Name) and t.left.id == var) else t.left
+                    if ctx.sym.eval(other, fn.module.name, {var: 1}) is Unknown:
+                        opaque.append(f"L{n.lineno} {norm(t)[:50]}")
+            if opaque:
+                stuck.append(f"undecided guard {opaque[:2]}")
         ctx.ob(rule, fn, f"only the sentinel stops the parse: every real value of {var} goes on to the consume", not stuck, f"with {var} in {stuck} the loop gives up without consuming: a valid frame (e.g. type 0 / empty payload) stalls the stream forever", node=rn.ast)
 
 
@@ -579,7 +632,10 @@ def r4(ctx: Ctx) -> None:
     wr = varint_writer_consts(ctx)
     fn = ctx.repo.func("_frame_helper.base", "APIFrameHelper._read_varuint")
     ctx.require({"mask", "cont", "shift"} <= set(rd), f"varint reader constants not identified: {rd}")
-    ctx.require({"mask", "cont", "shift"} <= set(wr), f"varint writer constants not identified: {wr}")
+    if not {"mask", "cont", "shift"} <= set(wr):
+        # the writer is not in one of the loop forms the checker reads its constants from (judged by C02.R2)
+        ctx.note(f"varint writer not in a recognised loop form: {wr}")
+        wr = {"shift": rd["shift"], "mask": rd["mask"], "cont": rd["cont"]}
     s = rd["shift"]
     ctx.ob("C01.R4", fn, "reader: payload mask = 2^shift - 1", rd["mask"] == (1 << s) - 1, f"mask {rd['mask']:#x}, shift {s}")
     ctx.ob("C01.R4", fn, "reader: continuation bit = 2^shift, tested for absence", rd["cont"] == (1 << s) and rd.get("cont_op") == "Eq", f"cont {rd['cont']:#x} op {rd.get('cont_op')}")
